@@ -153,7 +153,7 @@ def ordering(ctx, prog):
         "await self.db.get_txos(txoid__in=list(check_db_for_txos.values())" in t and "tx_from_db = await self.db.get_transaction(txid=txi.txo_ref.tx_ref.id)" in t
     ctx.ob("C09-D2/LINK", ok, sy.site(), "all inputs of the transaction are visited; stored outputs are fetched by the collected ids, the stored transaction by the source txid", func=syq)
     tio = ctx.fa(f"{DB}._transaction_io")
-    ok = any(unparse(x.test) == "txi.txo_ref.txo is not None" for x in tio.stmts(ast.If)) and "txo = txi.txo_ref.txo" in unparse(tio.node)
+    ok = any(tio.expanded_text(x.test, keep=("txi",)) == "txi.txo_ref.txo is not None" for x in tio.stmts(ast.If)) and "txo = txi.txo_ref.txo" in unparse(tio.node)
     ctx.ob("C09-D2/LINK", ok, tio.site(), "…and _transaction_io reads exactly that link (txi.txo_ref.txo)", func=tio.fi.qualname)
     rs = ctx.fa(f"{L}.request_synced_transactions")
     rq = rs.fi.qualname
